@@ -188,6 +188,14 @@ def run_stack(sc, sim, np_seed, eager=False):
         again = stack if not isinstance(stack, np.ndarray) else da.from_array(X, chunks=(max(1, X.shape[0] // 3),) + X.shape[1:])
         out["tr_again"] = np.asarray(clf.transform(again))
         out["pred"] = np.asarray(clf.predict(again))
+        # plain numpy images are accepted too (the repository's own test passes them); the caller's array must survive
+        Xn = X[: min(6, X.shape[0])].copy()
+        Xn_sum = digest(Xn)
+        t1 = np.asarray(clf.transform(Xn))
+        t2 = np.asarray(clf.transform(Xn))
+        out["np_input_kept"] = digest(Xn) == Xn_sum
+        out["np_tr_repeat"] = float(np.abs(t1 - t2).max()) if t1.shape == t2.shape else float("inf")
+        out["np_tr_first"] = t1
     if digest(X) != Xsum:
         raise V("inputs-modified", "PcaClassifier", "the input stack was modified")
     return out, X, mask, labels
@@ -222,6 +230,10 @@ def check_stack(sc, sim):
         raise V("projections-detached", "transform", "transform(stack) differs from the projections of the fitted stack")
     if out["pred"].tolist() != out["labels"].tolist():
         raise V("projections-detached", "predict", "predict(stack) differs from the labels of the fitted stack")
+    if not out["np_input_kept"]:
+        raise V("inputs-modified", "transform", "transform(numpy images) modified the caller's array")
+    if out["np_tr_repeat"] > 1e-4 * scale_ or np.abs(out["np_tr_first"] - out["tr"][: out["np_tr_first"].shape[0]]).max() > 1e-4 * scale_:
+        raise V("projections-detached", "transform", "transform(numpy images) is not repeatable / differs from the projections of the fitted stack")
     rel = np.abs(sv - s0[:k]) / s0[:k]
     if rel.max() > 1e-3:
         raise V("pca-mismatch", "singular_values", f"singular values {sv} vs exact {s0[:k]} (rel err {rel.max():.3g}; spectrum {np.round(s0[:k + 2], 3)})")
